@@ -89,6 +89,8 @@ cfn("sparse_image.c:coverlaps",
                "forall(0, npk1*npk2, lambda q: And_(defined(mat, q), 0 <= mat[q], mat[q] <= i1))"],
            2: ["0 <= npk", "npk <= i1*npk2", "isdef('npk')", "forall(0, npk1*npk2, lambda q: defined(mat, q))"],
            3: ["0 <= i1", "i1 < npk1", "0 <= npk", "npk <= i1*npk2 + i2", "isdef('npk')", "forall(0, npk1*npk2, lambda q: defined(mat, q))"]},
+    # the merge walks both lists by comparing keys: the key computed by the code must be the row-major position key
+    asserts={"before^:if(p1==p2)": T("C14", "p1 == row1[i1]*65536 + col1[i1]", "p2 == row2[i2]*65536 + col2[i2]")},
     ensures=["0 <= result", "result <= npk1*npk2"],
     props=["C14", "C20"])
 
